@@ -4,8 +4,13 @@ valid    (body, chunk partition, extension sets, trailer set, hex case, leading
          zeros) is encoded by the harness grammar, or by hio's own packChunk for
          plain chunks, and decoded (a) by parseChunk directly, (b) through the
          request parser and (c) through the response parser, also as the second
-         of two pipelined chunked messages.  Decoding must yield exactly the body,
-         exactly those trailers and exactly those extension parameters.
+         of two pipelined chunked messages, and (d) by the real http Client on an
+         in-memory connection as the first of two chunked responses on one
+         connection.  Decoding must yield exactly the body, exactly those trailers
+         and exactly those extension parameters; in (d) the body the Client
+         delivered in .responses must still be that body after the next response
+         was decoded (the entry is read again, the way a caller that lets
+         responses queue up reads it).
 invalid  a chunk-size line that is not 1*HEXDIG (sign, 0x prefix, underscore,
          empty, non-hex, embedded blank, ...) followed by enough data: decoding
          must report an error (raise, or set the parser's errored flag) and must
@@ -14,20 +19,24 @@ invalid  a chunk-size line that is not 1*HEXDIG (sign, 0x prefix, underscore,
 """
 from hypothesis import strategies as st
 
-from hio.core.http import httping
-from vlib import httpdrive, httpgen
+from hio.core.http import clienting, httping
+from vlib import fakenet, httpdrive, httpgen
 from vlib.core import Result, assert_in_tree
 
-assert_in_tree(httping)
+assert_in_tree(httping, clienting)
 
 PID = "C17"
 RULE = ("cases: valid = (body <= 200 bytes incl. CR/LF/look-alike framing, chunk sizes, per-chunk extensions, trailers, hex "
         "case, leading zeros, packChunk or grammar encoding, fragmentation) decoded by parseChunk / Requestant / Respondent, "
-        "alone and as second pipelined message; invalid = chunk-size strings from a grammar of non-hex forms. non-trivial = "
+        "alone and as second pipelined message, and by the http Client as first of two responses on one connection (body read "
+        "from Client.responses when delivered and again after the second response); invalid = chunk-size strings from a grammar of non-hex forms. non-trivial = "
         ">= 2 chunks with an extension or a trailer, or an invalid size that Python's int(s, 16) would accept; distinct = "
         "canonical hash of the case")
 ASSUMPTIONS = ["chunk-size lines and chunk data are CRLF terminated (the only form parseChunk documents)",
-               "blank-padded chunk sizes are not judged"]
+               "blank-padded chunk sizes are not judged",
+               "a decoded body is judged where a caller receives it: the parser's .body when the message has ended, and the entries "
+               "of Client.responses for as long as they are queued; whether the parser reuses its own .body object afterwards is "
+               "not judged (the servers copy it before the next message is parsed)"]
 
 
 def decode_direct(data, frags, idle=(0,)):
@@ -123,6 +132,73 @@ def run_valid(case, r):
                 if got[field] != want:
                     r.fail("C17/%s-%s-%s" % (kind, label, field), "decoded %r expected %r" % (got[field], want))
                     return
+    # through the http Client: the generated message first, another chunked message behind it on the same connection
+    ma = dict(spec, t="resp", version="HTTP/1.1", status=200, reason="OK", headers=[], frame="chunked", conn=None)
+    mb = dict(first, t="resp", version="HTTP/1.1", status=200, reason="OK", headers=[], frame="chunked", conn=None)
+    entries, fresh = drive_client([httpgen.build(ma), httpgen.build(mb)], case["cuts"], tuple(case.get("idle") or (0,)))
+    if len(entries) != 2 or any(e.get("errored") for e in entries):
+        r.fail("C17/client-not-decoded", "%d of 2 responses, errored %r" % (len(entries), [e.get("error") for e in entries]))
+        return
+    for k, want in enumerate((exp["body"], b"xyz")):
+        if fresh[k] != want:
+            r.fail("C17/client-body", "response %d delivered with body %r, the chunks carry %r" % (k, fresh[k][:80], want[:80]))
+            return
+    for k, want in enumerate((exp["body"], b"xyz")):
+        now = bytes(entries[k]["body"])
+        if now != want:
+            r.fail("C17/client-body-changed-after-delivery", "Client.responses[%d]['body'] was %r when delivered and reads %r after "
+                   "response %d was decoded" % (k, want[:80], now[:80], 1))
+            return
+
+
+AUTH = ("127.0.0.1", 8080)
+
+
+def drive_client(wires, cuts, idle=(0,)):
+    """The real http Client on an in-memory connection.  One GET per wire is queued up front; the harness server answers the
+    k-th request that arrives with wires[k], one fragment per service cycle.  Returns (entries of Client.responses - the
+    objects themselves -, copies of their bodies taken in the cycle each one appeared)."""
+    socks = []
+
+    def make():
+        a, b = fakenet.pipe(a_addr=("127.0.0.1", 43000 + len(socks)), b_addr=AUTH)
+        socks.append(b)
+        return a
+
+    fakenet.FakeConnector.registry = {AUTH: make}
+    fakenet.FakeConnector.opened_to = []
+    conn = fakenet.FakeConnector(ha=AUTH, bs=65536)
+    conn.reopen()
+    client = clienting.Client(connector=conn, hostname=AUTH[0], port=AUTH[1])
+    for k in range(len(wires)):
+        client.request(method="GET", path="/m%d" % k)
+    idle = tuple(idle) or (0,)
+    seen = bytearray()
+    first = []
+    pending = []
+    answered = sent = 0
+    for _ in range(40 + sum(len(w) for w in wires) * 3):
+        client.service()
+        for e in list(client.responses)[len(first):]:
+            first.append(bytes(e["body"]))
+        if len(first) == len(wires):
+            break
+        if not socks:
+            continue
+        b = socks[0]
+        try:
+            seen.extend(b.recv(65536))
+        except OSError:
+            pass
+        if not pending and answered < len(wires) and seen.count(b"\r\n\r\n") > answered:
+            pending = httpgen.fragments(wires[answered], cuts)
+            answered += 1
+        if pending:
+            b.send(pending.pop(0))
+            for _i in range(idle[sent % len(idle)]):
+                client.service()
+            sent += 1
+    return list(client.responses), first
 
 
 PYINT_ACCEPTS = None
